@@ -31,7 +31,7 @@ def main() -> int:
         body = json.load(open(a.file))
         mod = importlib.import_module("vf.props.%s" % a.prop.lower())
         ctx = Ctx(prop=a.prop, tier="replay", seed=0, shard=0, nshards=1, repo=a.repo, scratch_root=scratch)
-        part = {p.name: p for p in mod.parts(ctx)}[body["part"]]
+        part = {p.name: p for p in core.all_parts(mod, ctx)}[body["part"]]
         try:
             part.check(body["case"], ctx)
             rec = {"status": "pass"}
